@@ -243,10 +243,10 @@ func c13Run(c *core.Ctx) {
 		c13ResolveThen(c, []byte(src), verStr(v))
 	})
 	for _, cs := range deepCases(c) {
-		// the thorough tier's deepest programs (3000 and 5000 levels) are left to the checks that look at a tree once: a
+		// the thorough tier's deepest programs (3000 and 2000-with-strings levels) are left to the checks that look at a tree once: a
 		// dump indents every line by its depth, so the outputs compared here grow with the square of the depth (hundreds
 		// of megabytes per operation; a worker ran into the 3 GB heap backstop)
-		if strings.Contains(cs.Why, "n=3000") || strings.Contains(cs.Why, "5000 block levels") {
+		if strings.Contains(cs.Why, "n=3000") || strings.Contains(cs.Why, "2000 block levels") {
 			continue
 		}
 		if c.Next() {
